@@ -14,7 +14,7 @@ from fractions import Fraction
 REPO = os.environ.get("PYMODES_REPO", "/repo")
 SRC = os.path.join(REPO, "src", "pyModeS")
 HERE = os.path.dirname(os.path.abspath(__file__))
-OUT = os.path.join(HERE, "..", "lean", "PyModeS", "Generated", "Tables.lean")
+OUT = os.path.join(os.environ.get("VERIF_LEAN_DIR") or os.path.join(HERE, "..", "lean"), "PyModeS", "Generated", "Tables.lean")
 
 
 class NotExtractable(Exception):
